@@ -22,6 +22,7 @@ type logSink struct {
 	leaks    []string
 	keep     bool
 	kept     bytes.Buffer
+	byLevel  map[string]int
 	passthru bool
 }
 
@@ -33,8 +34,18 @@ func (s *logSink) Write(p []byte) (int, error) {
 	s.lines++
 	s.bytes += len(p)
 	for _, sec := range s.secrets {
-		if len(sec) > 0 && bytes.Contains(p, sec) && len(s.leaks) < 20 {
+		if len(sec) > 0 && bytes.Contains(p, sec) && len(s.leaks) < 200 {
 			s.leaks = append(s.leaks, string(p))
+			break
+		}
+	}
+	for _, lv := range []string{"[DEBUG]", "[INFO]", "[WARN]", "[ERROR]", "[PANIC]"} {
+		if bytes.Contains(p, []byte(lv)) {
+			if s.byLevel == nil {
+				s.byLevel = map[string]int{}
+			}
+			s.byLevel[lv]++
+			break
 		}
 	}
 	if s.keep && s.kept.Len() < 8<<20 {
@@ -49,9 +60,17 @@ func (s *logSink) Write(p []byte) (int, error) {
 func (s *logSink) SetSecrets(secs ...string) {
 	s.mu.Lock()
 	defer s.mu.Unlock()
-	s.secrets = nil
+	// (a union: a sub-family that names its own two passwords must not narrow what the C19 run looks for)
 	for _, x := range secs {
-		s.secrets = append(s.secrets, []byte(x))
+		dup := false
+		for _, y := range s.secrets {
+			if string(y) == x {
+				dup = true
+			}
+		}
+		if !dup {
+			s.secrets = append(s.secrets, []byte(x))
+		}
 	}
 }
 
